@@ -426,6 +426,16 @@ func c16ManagerUnit(unit string, env *fw.Env) *fw.Result {
 		} else if e.IsReadOnly() {
 			viol("non-replica-read-only", mode+" node is read-only", mode)
 		}
+		// the reported status follows the engine's flag in every role (an embedding application may switch it)
+		for _, ro := range []bool{!e.IsReadOnly(), e.IsReadOnly()} {
+			e.SetReadOnly(ro)
+			ni2, err := srv.GetNodeInfo(context.Background(), &pb.GetNodeInfoRequest{})
+			_, perr := srv.Put(context.Background(), &pb.PutRequest{Key: []byte("probe"), Value: []byte("1")})
+			res.Evaluations++
+			if err != nil || ni2.ReadOnly != ro || ni2.ReadOnly != (perr != nil) {
+				viol("node-info-read-only", fmt.Sprintf("%s node with the engine's read-only flag set to %v reports read_only=%v (err %v); a client Put was refused: %v", mode, ro, ni2.GetReadOnly(), err, perr != nil), mode)
+			}
+		}
 		m.Stop()
 		e.Close()
 		res.Sample(map[string]any{"mode": mode, "role": fmt.Sprint(ni.GetNodeRole()), "read_only": ni.GetReadOnly(), "primary_address": ni.GetPrimaryAddress()})
@@ -438,7 +448,7 @@ func init() {
 		ID:    "C16",
 		Level: "model_checking",
 		Rule: "(A) the mutator set is computed: every entry point of *EngineFacade, transaction.Transaction and *KevoServiceServer (method sets by reflection; a method with neither a body nor a recorded exclusion is a HARNESS-ERROR) is invoked on a read-write twin holding data in 2 SSTables and the memtable; a call after which the scan or the log entries differ is a mutator. On the same state with SetReadOnly(true): every mutator except the *Internal replication bypasses must return a read-only error and leave scan and log unchanged; the bypasses must still take effect; non-mutators must succeed. " +
-			"(B) schedules: EngineApplier.Apply of 2 replicated entries against a client Put / Delete / BatchWrite, all interleavings up to the deviation bound (2 quick, 3 thorough): client always rejected, both entries applied, final state = replicated entries only, read-only flag intact. (C) replication.Manager started in standalone / primary / replica mode: GetNodeInfo reports role, primary address and read_only equal to the configured truth; after Start returned in replica mode client writes are rejected. Non-trivial = entry points evaluated / executions with a cross-thread conflict",
+			"(B) schedules: EngineApplier.Apply of 2 replicated entries against a client Put / Delete / BatchWrite, all interleavings up to the deviation bound (2 quick, 3 thorough): client always rejected, both entries applied, final state = replicated entries only, read-only flag intact. (C) replication.Manager started in standalone / primary / replica mode: GetNodeInfo reports role, primary address and read_only equal to the configured truth, and read_only follows the engine's flag (and what a client Put experiences) when the flag is switched in either direction; after Start returned in replica mode client writes are rejected. Non-trivial = entry points evaluated / executions with a cross-thread conflict",
 		Assumptions: []string{"the window inside Manager.Start (replica started before the engine is switched to read-only) is not part of 'running as a replica' and is not flagged", "the manager unit runs free (real listeners on loopback)"},
 		Units: func(tier string) []string {
 			us := []string{"seq", "manager"}
